@@ -261,7 +261,10 @@ def r05d(ctx):
     ctx.rule("R05d", "inner_text = own text, then each child's str() and tail, in document order", floor=2)
     from ..shape import has
     g = repo.func("Element.inner_text", "getter")
-    ok = has(g.node, 'return self.text + "".join(X_._text_tail for X_ in self.children)')
+    # one definition of the text: every return of the getter has that shape (a fast path through lxml's itertext() skips what only str() of a child knows:
+    # the blanks of text:s, the tab, the line break, the rendering of a link)
+    rets = [r for r in walk_no_nested(g.node) if isinstance(r, ast.Return)]
+    ok = has(g.node, 'return self.text + "".join(X_._text_tail for X_ in self.children)') and len(rets) == 1
     ctx.instance("R05d", f"{g.file}:{g.ident}", "self.text + ''.join(child._text_tail for child in self.children)", ok=ok, nontrivial=True)
     if not ok:
         ctx.report("R05d", g, g.node, "Element.inner_text", "the text of an element is no longer its own text followed by every child's text and tail in order")
